@@ -11,6 +11,7 @@ import (
 	"net/url"
 	"reflect"
 	"sort"
+	"strings"
 	"sync"
 	"testing"
 	"time"
@@ -193,6 +194,10 @@ func TestC18(t *testing.T) {
 			}
 			// ---- payload ----
 			base := cePlain{A: rt.Pick(cr, nastyStrings), N: cr.Intn(1000)}
+			if cr.Intn(8) == 0 {
+				// documents of several kilobytes: what is signed is the document, whatever its size
+				base.A = rt.Pick(cr, nastyStrings) + strings.Repeat("0123456789abcdef", cr.Range(40, 1200))
+			}
 			data, _ := genJSONValue(cr, 1)
 			if _, err := json.Marshal(data); err != nil {
 				data = "replaced"
